@@ -178,3 +178,77 @@ theorem Spec.drop_append_len {α} (a b : List α) (j : Nat) : (a ++ b).drop (a.l
     rw [this, List.cons_append, List.drop_succ_cons, ih]
 
 end GoZero.C12
+
+namespace GoZero.C12
+
+/-! ### valid calls on a running wheel are exactly the wheel's operations -/
+
+/-- a call whose arguments pass the guards (Stop excluded). -/
+def validCall : Call → Bool
+  | .setTimer (some _) _ d => decide (0 < d)
+  | .moveTimer (some _) d => decide (0 < d)
+  | .removeTimer (some _) => true
+  | .drain => true
+  | .tick => true
+  | _ => false
+
+/-- the request the run loop handles for a valid call (`steps = delay / interval`). -/
+def toOp (iv : Nat) : Call → Op
+  | .setTimer (some k) v d => .set k v (stepsOf iv d)
+  | .moveTimer (some k) d => .move k (stepsOf iv d)
+  | .removeTimer (some k) => .remove k
+  | .drain => .drain
+  | _ => .tick
+
+theorem valid_step (a : Api) (hrun : a.stopped = false) (c : Call) (hv : validCall c = true) :
+    (a.step c).1.stopped = false ∧ (a.step c).1.interval = a.interval
+    ∧ (a.step c).1.inner = (step a.inner (toOp a.interval c)).1
+    ∧ (a.step c).2.2 = (step a.inner (toOp a.interval c)).2
+    ∧ ((a.step c).2.1 = .ok ∨ (a.step c).2.1 = .unit) := by
+  cases c with
+  | setTimer key v d =>
+    cases key with
+    | none => simp [validCall] at hv
+    | some k =>
+      simp only [validCall, decide_eq_true_eq] at hv
+      have hb : badDelayKey d false = false := by simp [badDelayKey]; omega
+      simp [Api.step, ApiG.step, ApiG.submit, hb, hrun, toOp]
+  | moveTimer key d =>
+    cases key with
+    | none => simp [validCall] at hv
+    | some k =>
+      simp only [validCall, decide_eq_true_eq] at hv
+      have hb : badDelayKey d false = false := by simp [badDelayKey]; omega
+      simp [Api.step, ApiG.step, ApiG.submit, hb, hrun, toOp]
+  | removeTimer key =>
+    cases key with
+    | none => simp [validCall] at hv
+    | some k => simp [Api.step, ApiG.step, ApiG.submit, hrun, toOp]
+  | drain => simp [Api.step, ApiG.step, ApiG.submit, hrun, toOp]
+  | tick => simp [Api.step, ApiG.step, hrun, toOp]
+  | stop => simp [validCall] at hv
+
+theorem valid_run (a : Api) (hrun : a.stopped = false) (cs : List Call) (hv : ∀ c ∈ cs, validCall c = true) :
+    (a.run cs).map (·.2) = run a.inner (cs.map (toOp a.interval))
+    ∧ ∀ r ∈ a.run cs, r.1 = .ok ∨ r.1 = .unit := by
+  induction cs generalizing a with
+  | nil => exact ⟨rfl, by simp [Api.run, ApiG.run]⟩
+  | cons c cs ih =>
+    have hs := valid_step a hrun c (hv c (by simp))
+    have ih' := ih (a.step c).1 hs.1 (fun x hx => hv x (by simp [hx]))
+    have e1 : ApiG.step step a c = a.step c := rfl
+    constructor
+    · simp only [Api.run, ApiG.run, List.map_cons, run, runWith, e1]
+      have e2 : stepWith moveCase a.inner (toOp a.interval c) = step a.inner (toOp a.interval c) := rfl
+      rw [e2, hs.2.2.2.1]
+      congr 1
+      have := ih'.1
+      simp only [Api.run, run] at this
+      rw [this, hs.2.1, hs.2.2.1]
+    · intro r hr
+      simp only [Api.run, ApiG.run, List.mem_cons, e1] at hr
+      rcases hr with rfl | hr
+      · exact hs.2.2.2.2
+      · exact ih'.2 r hr
+
+end GoZero.C12
